@@ -298,6 +298,19 @@ impl PublicBatchProver {
         Ok(self)
     }
 
+    /// Verification hook: the witness `commit` filled.
+    #[cfg(feature = "verif-hooks")]
+    pub fn verif_partial_witness(&self) -> &PartialWitness<F> {
+        &self.partial_witness
+    }
+
+    /// Verification hook: re-arm a committed prover so it can be committed again.
+    #[cfg(feature = "verif-hooks")]
+    pub fn verif_reset(&mut self, targets: PublicBatchCircuitTargets) {
+        self.partial_witness = PartialWitness::new();
+        self.targets = Some(targets);
+    }
+
     pub fn prove(self) -> Result<ProofWithPublicInputs<F, C, D>> {
         self.circuit_data
             .prove(self.partial_witness)
@@ -351,6 +364,16 @@ pub(crate) fn preflight_private_batch_proofs(
     }
 
     ensure_private_batch_compatible(proofs)
+}
+
+/// Verification hook: public entry to the crate-private admission preflight.
+#[cfg(feature = "verif-hooks")]
+pub fn verif_preflight(
+    proofs: &[ProofWithPublicInputs<F, C, D>],
+    num_private_batch_proofs: usize,
+    private_batch_verifier: &VerifierCircuitData<F, C, D>,
+) -> Result<()> {
+    preflight_private_batch_proofs(proofs, num_private_batch_proofs, private_batch_verifier)
 }
 
 /// Check that a set of private-batch proofs is mutually compatible under the
